@@ -1588,10 +1588,10 @@ outer4:
 		blobs = append(blobs, blobCase{fmt.Sprintf("verifiable/dg1+sod+evidence-subset-%d", e), recipe{Importer: "verifiable", Files: small, Ev: ev}})
 		blobs = append(blobs, blobCase{fmt.Sprintf("evidence/subset-%d", e), recipe{Importer: "evidence", Ev: ev}})
 	}
+	for i := 0; i < nSlots; i++ {
+		blobs = append(blobs, blobCase{"document/only-" + slotNames[i], recipe{Importer: "document", Files: map[string]string{slotNames[i]: "seed:doc/" + string(slotKinds[i])}}})
+	}
 	if thorough {
-		for i := 0; i < nSlots; i++ {
-			blobs = append(blobs, blobCase{"document/only-" + slotNames[i], recipe{Importer: "document", Files: map[string]string{slotNames[i]: "seed:doc/" + string(slotKinds[i])}}})
-		}
 		varFiles := docSeedFiles()
 		for k, v := range map[string]string{"dg1": "seed:var/DG1-TD1-long-number", "dg2": "seed:var/DG2-three-templates", "dg7": "seed:var/DG7-three", "dg11": "seed:var/DG11-bare-bcd",
 			"dg12": "seed:var/DG12-bcd", "dg14": "seed:var/DG14-all", "dg15": "seed:var/DG15-ec-explicit", "dg16": "seed:var/DG16-three", "com": "seed:var/COM-all16",
